@@ -332,7 +332,8 @@ Proof. intros K a s old. split; [reflexivity|]. destruct a; reflexivity. Qed.
 Theorem C04_pad_generalises : forall K C s st, 0 < C -> Striped K C s st -> StripedPad K C s st.
 Proof. intros K C s st HC. exact (Striped_StripedPad K C HC s st). Qed.
 
-(* StripedSequence::sample on an explicit stream of draws: never fails; cell (r, c) is
+(* [BEFORE the repair of /repo 740d563; the repaired function is C04_sample_striped below]
+   StripedSequence::sample on an explicit stream of draws: never fails; cell (r, c) is
    draw r*C + c (row-major, every cell of every row, padding included); len = length;
    position i of the logical sequence is draw (i mod R)*C + i/R; EncodedSequence::sample
    on the same stream is its first `len` draws *)
@@ -423,12 +424,14 @@ Proof. intros K C s ob HC. exact (check_C04_pad_sound K C HC s ob). Qed.
    (GenPli.v: the two row-count formulas, capacity, reserve / resize arguments, the index
    expressions of the symbol loop and of the fill loop, the fill range, the arguments of
    StripedSequence::new), assembled in PliT.v, ARE the generic model functions all theorems
-   above speak about; so are the pipelines and the history step built on them. *)
+   above speak about; so are the pipelines and the history step built on them (except for
+   sample: step2's OSample is the function BEFORE the repair of /repo 740d563, step2_t's the
+   repaired one -- C04_sample_striped). *)
 Theorem C04_pli_translated : forall K C, 0 < C ->
   (forall s old, stripe_into_generic_t K C s old = stripe_into_generic K C s old) /\
   (forall b s old, stripe_into_t K C b s old = stripe_into K C b s old) /\
   (forall b s, stripe_fresh_t K C (stripe_into_t K C b) s = stripe_fresh K C (stripe_into K C b) s) /\
-  (forall st o, step2_t K C st o = step2 K C st o).
+  (forall st o, (forall draws len, o <> OSample draws len) -> step2_t K C st o = step2 K C st o).
 Proof.
   intros K C HC.
   split; [intros s old; exact (stripe_into_generic_t_eq K C HC s old)|].
@@ -486,13 +489,43 @@ Proof. intros K C b s old1 old2 HC. exact (stripe_into_overwrites K C HC b s old
 Theorem C04_sample_translated : forall len C, 0 < C ->
   sm_rows len C default_extra_rows = sample_rows C len /\ sm_rows_ok len C default_extra_rows = true /\
   sample_rows C len = seq_rows C len /\
-  sm_newlen len C default_extra_rows = len /\ sm_take len C default_extra_rows = len.
+  sm_newlen len C default_extra_rows = len /\ sm_take len C default_extra_rows = len /\
+  (forall rows i, sm_f_lo len C default_extra_rows rows = len /\ sm_f_hi len C default_extra_rows rows = rows * C /\
+                  sm_f_row len C default_extra_rows rows i = i mod rows /\ sm_f_col len C default_extra_rows rows i = i / rows).
 Proof.
   intros len C HC.
   split; [unfold sm_rows, sample_rows; first [reflexivity | apply (f_equal (fun x => Nat.div x C)); lia]|].
   split; [unfold sm_rows_ok; repeat (apply andb_true_iff; split); try reflexivity; apply Nat.leb_le; lia|].
   split; [unfold sample_rows, seq_rows; apply (f_equal (fun x => Nat.div x C)); lia|].
-  split; [unfold sm_newlen|unfold sm_take]; first [reflexivity | lia].
+  split; [unfold sm_newlen; first [reflexivity | lia]|].
+  split; [unfold sm_take; first [reflexivity | lia]|].
+  intros rows i. repeat split; try reflexivity; unfold sm_f_lo, sm_f_hi; lia.
+Qed.
+
+(* (/repo 740d563) StripedSequence::sample as repaired -- the translated text striped_sample_fix: rows*C
+   draws fill the matrix row by row, then every cell past the end of the sequence is overwritten with
+   the wildcard -- never fails and yields the FULL striped invariant of the sampled sequence
+   (position i = draw (i mod R)*C + i/R): wildcard padding, so every C04 theorem above (uniqueness,
+   Index in the padding, counts, configure, histories, scoring through C01) applies to a sampled
+   sequence; no padded mode is needed for it. *)
+Theorem C04_sample_striped : forall K C (stream : nat -> nat) (len : nat), 0 < C ->
+  exists st, striped_sample_fix K C stream len = Ok st /\
+    Striped K C (sample_seq C stream len) st /\ swrap st = 0 /\ slen st = len /\
+    forall r c, r < seq_rows C len -> c < C ->
+      nth c (nth r (mat st) []) (wild K) =
+      if c * seq_rows C len + r <? len then stream (r * C + c) else wild K.
+Proof. intros K C stream len HC. exact (sample_fix_spec K C HC stream len). Qed.
+
+(* before the repair (PadModel.striped_sample: the padding keeps the further draws) the sampled state
+   was only StripedPad (C04_sample_spec) and in general NOT Striped: *)
+Theorem C04_sample_prefix_striped_refuted :
+  exists K C stream len st, 0 < C /\ striped_sample C stream len = Ok st /\
+    StripedPad K C (sample_seq C stream len) st /\ ~ Striped K C (sample_seq C stream len) st.
+Proof.
+  exists 5, 4, (stream_of [0; 1; 2; 3; 0; 1; 2; 3]), 6, (mkS [[0; 1; 2; 3]; [0; 1; 2; 3]] 6 0).
+  split; [lia|]. split; [vm_compute; reflexivity|]. split.
+  - apply (check_pad_sound 5 4); [lia|]. vm_compute. reflexivity.
+  - intros H. apply (C04_check_fast_iff 5 4) in H; [|lia]. vm_compute in H. discriminate.
 Qed.
 
 (* ---------- Clone and the From conversions ---------- *)
@@ -636,7 +669,7 @@ Check C04_pli_translated : forall K C, 0 < C ->
   (forall s old, stripe_into_generic_t K C s old = stripe_into_generic K C s old) /\
   (forall b s old, stripe_into_t K C b s old = stripe_into K C b s old) /\
   (forall b s, stripe_fresh_t K C (stripe_into_t K C b) s = stripe_fresh K C (stripe_into K C b) s) /\
-  (forall st o, step2_t K C st o = step2 K C st o).
+  (forall st o, (forall draws len, o <> OSample draws len) -> step2_t K C st o = step2 K C st o).
 
 (* ---------- non-vacuity ---------- *)
 
@@ -798,12 +831,15 @@ Example ex_check_full_rejects :
   check_agree 5 4 ex_s ex_pad_st ex_pad_st = false.
 Proof. vm_compute. repeat split; reflexivity. Qed.
 
-(* modes along a history: stripe -> wildcard mode; clone / configure keep it; matrix round trip with a
+(* modes along a history: stripe and (repaired) sample -> wildcard mode; new -> padded mode; clone / configure keep it; matrix round trip with a
    look-ahead row -> padded mode; From<EncodedSequence> -> wildcard mode again *)
 Example ex_modes :
   pad_after 5 4 false s_default [O2 (O1 (OStripeInto BGeneric ex_s)); OClone; O2 (O1 (OConfigureWrap 1))] = false /\
   pad_after 5 4 false s_default [O2 (O1 (OStripeInto BGeneric ex_s)); OViaMatrix; OClone] = false /\
   pad_after 5 4 false s_default [O2 (O1 (OStripeInto BGeneric ex_s)); O2 (O1 (OConfigureWrap 1)); OViaMatrix] = true /\
-  pad_after 5 4 false s_default [O2 (OSample [0; 1; 2; 3; 0; 1; 2; 3] 6); OClone; O2 (O1 (OConfigure 2))] = true /\
+  pad_after 5 4 false s_default [O2 (OSample [0; 1; 2; 3; 0; 1; 2; 3] 6); OClone; O2 (O1 (OConfigure 2))] = false /\
+  pad_after 5 4 false s_default [O2 (ONew (mat ex_pad_st) 6); OClone; O2 (O1 (OConfigure 2))] = true /\
+  run3 5 4 s_default [O2 (OSample [0; 1; 2; 3; 0; 1; 2; 3] 6); O2 (O1 (OConfigureWrap 1))] =
+    Ok (mkS [[0; 1; 2; 4]; [0; 1; 2; 4]; [1; 2; 4; 4]] 6 1) /\
   pad_after 5 32 true s_default [O2 (OSample [0; 1; 2] 2); OFromEnc AGeneric ex_s; OClone] = false.
 Proof. vm_compute. repeat split; reflexivity. Qed.
